@@ -2,6 +2,8 @@
 
 from __future__ import annotations
 
+from mc.callers import clear_lru  # noqa: E402
+
 import itertools
 
 import numpy as np
@@ -172,7 +174,7 @@ def check_recipe(r, tier, seed, rep=None, want=None):
         old = compiler._RECURSION_THRESHOLD
         try:
             compiler._RECURSION_THRESHOLD = 0
-            compiler._compile_cached.cache_clear()
+            clear_lru(compiler)
             vlab2, vn2 = menu[-1]
             f3 = compiler.compile_expression(e, b.variables_for(vn2))
             closures.append(("iterative", vlab2, lambda pd, f=InPlace(f3), vn=vn2: f(np.array([pd.get(n, 0.125) for n in vn]))))
@@ -180,7 +182,7 @@ def check_recipe(r, tier, seed, rep=None, want=None):
             fail("exception:compile-iterative:" + type(ex).__name__, msg=str(ex)[:200])
         finally:
             compiler._RECURSION_THRESHOLD = old
-            compiler._compile_cached.cache_clear()
+            clear_lru(compiler)
         if rep:
             rep.transitions += 2
     closures.append(("evaluate", "-", lambda pd: e.evaluate(pd)))
@@ -207,12 +209,12 @@ def check_recipe(r, tier, seed, rep=None, want=None):
                 old_t = compiler._RECURSION_THRESHOLD
                 try:
                     compiler._RECURSION_THRESHOLD = 0
-                    compiler._compile_cached.cache_clear()
+                    clear_lru(compiler)
                     f5 = compiler.compile_expression(root, Vs)
                     closures.append(("dag-iterative", vlab, lambda pd, f=InPlace(f5), vn=vn: f(np.array([pd.get(n, 0.125) for n in vn]))))
                 finally:
                     compiler._RECURSION_THRESHOLD = old_t
-                    compiler._compile_cached.cache_clear()
+                    clear_lru(compiler)
                 for p_ in pnames:
                     b.named[("par", p_)] = b.parameter(p_)
                 dag_params = [bs.parameter(p_) for p_ in pnames]
